@@ -642,8 +642,17 @@ struct Drv {
         shift_vector("rotr", "vector", vals, maxrot, [](V a, V s) { return avel::rotr(a, s); });
 
         CT<W>::run(*this, vals);
+        // compile-time rotation amounts beyond the width are reduced modulo the width by a separate overload:
+        // every residue class that matters (below / at / above half the width, last bit, a second wrap)
         ct_rot_only<W + 1>(vals);
+        ct_rot_only<W + W / 2 - 1>(vals);
+        ct_rot_only<W + W / 2>(vals);
+        ct_rot_only<W + W / 2 + 5>(vals);
+        ct_rot_only<2 * W - 1>(vals);
+        ct_rot_only<2 * W>(vals);
         ct_rot_only<2 * W + 3>(vals);
+        ct_rot_only<2 * W + W / 2 + 4>(vals);
+        ct_rot_only<4 * W + W - 1>(vals);
     }
 
     //--------------------------------------------------------------------
